@@ -471,33 +471,32 @@ impl Duration {
     /// Decomposes a Duration in its sign, days, hours, minutes, seconds, ms, us, ns
     #[must_use]
     pub fn decompose(&self) -> (i8, u64, u64, u64, u64, u64, u64, u64) {
-        let mut me = *self;
-        let sign = me.signum();
-        me = me.abs();
-        let days = me.to_unit(Unit::Day).floor();
-        me -= days.days();
-        let hours = me.to_unit(Unit::Hour).floor();
-        me -= hours.hours();
-        let minutes = me.to_unit(Unit::Minute).floor();
-        me -= minutes.minutes();
-        let seconds = me.to_unit(Unit::Second).floor();
-        me -= seconds.seconds();
-        let milliseconds = me.to_unit(Unit::Millisecond).floor();
-        me -= milliseconds.milliseconds();
-        let microseconds = me.to_unit(Unit::Microsecond).floor();
-        me -= microseconds.microseconds();
-        let nanoseconds = me.to_unit(Unit::Nanosecond).round();
+        let sign = self.signum();
+        // Integer arithmetic on the parts of the magnitude: an f64 number of days cannot resolve
+        // nanoseconds (a century is exactly 36525 days, so the centuries are whole days).
+        let (centuries, nanoseconds) = self.abs().to_parts();
+        let days = centuries as u64 * DAYS_PER_CENTURY_U64 + nanoseconds / NANOSECONDS_PER_DAY;
+        let rem = nanoseconds % NANOSECONDS_PER_DAY;
+        let hours = rem / NANOSECONDS_PER_HOUR;
+        let rem = rem % NANOSECONDS_PER_HOUR;
+        let minutes = rem / NANOSECONDS_PER_MINUTE;
+        let rem = rem % NANOSECONDS_PER_MINUTE;
+        let seconds = rem / NANOSECONDS_PER_SECOND;
+        let rem = rem % NANOSECONDS_PER_SECOND;
+        let milliseconds = rem / NANOSECONDS_PER_MILLISECOND;
+        let rem = rem % NANOSECONDS_PER_MILLISECOND;
+        let microseconds = rem / NANOSECONDS_PER_MICROSECOND;
+        let nanoseconds = rem % NANOSECONDS_PER_MICROSECOND;
 
-        // Everything should fit in the expected types now
         (
             sign,
-            days as u64,
-            hours as u64,
-            minutes as u64,
-            seconds as u64,
-            milliseconds as u64,
-            microseconds as u64,
-            nanoseconds as u64,
+            days,
+            hours,
+            minutes,
+            seconds,
+            milliseconds,
+            microseconds,
+            nanoseconds,
         )
     }
 
